@@ -69,6 +69,8 @@ pub enum Op {
     TransferOwnership { to: u8 },
     Execute { caller: u8, auth: ExecAuth, call: Call },
     AdvanceDays(u8),
+    /// the owner upgrades the operators contract and completes the migration: the operator set must be carried over
+    UpgradeAndMigrate,
 }
 
 #[derive(Clone, Debug, Serialize, Deserialize)]
@@ -118,6 +120,7 @@ fn op() -> impl Strategy<Value = Op> {
         7 => (0u8..NA as u8, prop_oneof![6 => Just(ExecAuth::Caller), 1 => Just(ExecAuth::OwnerInstead), 1 => Just(ExecAuth::OtherOperator), 1 => Just(ExecAuth::Nobody)], call())
             .prop_map(|(caller, auth, call)| Op::Execute { caller, auth, call }),
         1 => (1u8..60).prop_map(Op::AdvanceDays),
+        1 => Just(Op::UpgradeAndMigrate),
     ]
 }
 
@@ -211,6 +214,10 @@ impl Property for C17 {
                         days_passed += *d as u32;
                         advance_ledgers(&env, *d as u32 * 17280);
                     }
+                }
+                Op::UpgradeAndMigrate => {
+                    upgrade_and_migrate(&env, &ops.address).map_err(|e| format!("step {}: {}", step, e))?;
+                    cx.label("upgrade_and_migration_in_history");
                 }
                 Op::TransferOwnership { to } => {
                     env.mock_all_auths();
